@@ -271,6 +271,9 @@ var $newType = (size, kind, string, named, pkg, exported, constructor) => {
                 typ.copy = (dst, src) => {
                     for (var i = 0; i < fields.length; i++) {
                         var f = fields[i];
+                        if (f.name === "_") {
+                            continue; // blank fields hold no value (the constructor of $structType does not even create them)
+                        }
                         switch (f.typ.kind) {
                             case $kindArray:
                             case $kindStruct:
